@@ -11,6 +11,8 @@ import Sio.Props.C08
 #print axioms Sio.C08.disconnect_once_partial
 #print axioms Sio.C08.reset_partial
 #print axioms Sio.C08.reset_transport
+#print axioms Sio.C08.reconnecting_partial
+#print axioms Sio.C08.effort_started
 #print axioms Sio.C08.F8_witness
 #print axioms Sio.C08.F8b_witness
 #print axioms Sio.C08.F9_witness
